@@ -313,6 +313,65 @@ def rules(rep, m):
             r5.fail()
 
 
+    # R-C15-6 ------------------------------------------------------------
+    r6 = rep.rule("R-C15-6", "parameter memos are coherent: where a sampler caches values derived from a parameter under a key "
+                  "(static key compared with the parameter), the key is only updated together with every cached value - no "
+                  "way out of the function lies between the update of the key and the updates of the values, and a path "
+                  "that updates the key updates all of them - so what a call returns never depends on which parameters "
+                  "earlier calls on the same thread used", floor=2)
+    nmemo = 0
+    for f in sorted(api, key=lambda f_: f_.name):
+        statics = {g.node["id"]: g.name for g in m.globals.values() if g.local_to == f.key and g.node is not None}
+        if not statics:
+            continue
+        params = {p_["name"] for p_ in f.params}
+        for x in walk(f.body):
+            if x["kind"] != "IfStmt":
+                continue
+            c0 = strip(kids(x)[0], casts=True)
+            if not (c0["kind"] == "BinaryOperator" and c0.get("opcode") == "!="):
+                continue
+            sides = [strip(z, casts=True) for z in kids(c0)]
+            key = [z for z in sides if z["kind"] == "DeclRefExpr" and z["ref"]["id"] in statics]
+            par = [z for z in sides if z["kind"] == "DeclRefExpr" and z["ref"]["name"] in params]
+            if len(key) != 1 or len(par) != 1:
+                continue
+            kid_ = key[0]["ref"]["id"]
+            block = kids(x)[1]
+            stmts = kids(block) if block["kind"] == "CompoundStmt" else [block]
+            nmemo += 1
+            # cached values: the other statics of the function written inside the block
+            def writes(node, vid):
+                return any(strip(l, casts=True).get("ref", {}).get("id") == vid for l, r_, k_, n_ in
+                           [(kids(y)[0], None, None, y) for y in walk(node)
+                            if y["kind"] in ("BinaryOperator", "CompoundAssignOperator") and y.get("opcode", "").endswith("=")
+                            and y.get("opcode") not in ("==", "!=", "<=", ">=")])
+            values = [vid for vid in statics if vid != kid_ and writes(block, vid)]
+            key_at = [i for i, s_ in enumerate(stmts) if writes(s_, kid_)]
+            r6.instance("%s: memo keyed by %s caching %s (key updated: %s)" % (f.name, statics[kid_], [statics[v_] for v_ in values], bool(key_at)))
+            rep.sample({"rule": "R-C15-6", "function": f.name, "key": statics[kid_], "values": [statics[v_] for v_ in values]})
+            bad = None
+            if key_at:
+                # every value is written by a top-level statement of the block (not only under a nested condition) ...
+                for v_ in values:
+                    if not any(writes(s_, v_) and s_["kind"] != "IfStmt" for s_ in stmts):
+                        bad = "the cached value '%s' is not updated on every path that updates the key '%s'" % (statics[v_], statics[kid_])
+                # ... and nothing leaves the function inside the block
+                for s_ in stmts:
+                    for y in walk(s_):
+                        if y["kind"] in ("ReturnStmt", "GotoStmt"):
+                            bad = ("the function can return at line %s from inside the block that updates the key '%s': the key "
+                                   "then says 'cached for this parameter' while the cached values belong to another one" %
+                                   (y.get("line"), statics[kid_]))
+            if bad:
+                rep.finding(r6, f.name, "memo:incoherent", "%s: %s" % (f.name, bad), where=m.rel(loc(x)))
+                r6.fail()
+            else:
+                r6.ok()
+    if nmemo == 0:
+        raise AnalysisBroken("R-C15-6: no parameter memo found in the sampling functions")
+
+
 def run(tier="quick"):
     models = common.load_models(tier)
     rep = Report(PID, tier, models[0])
